@@ -22,6 +22,7 @@ type lineCase struct {
 	Src    []string        `json:"src"`
 	PartsR json.RawMessage `json:"parts"`
 	Line   int             `json:"line"`
+	Max    int             `json:"maxline"`
 	Fault  string          `json:"fault"`
 	Place  string          `json:"place"`
 	Wraps  bool            `json:"wraps"`
@@ -38,7 +39,7 @@ var reOwnLine = regexp.MustCompile(`(?m)^line (\d+):`)
 func init() { register("C15", checkC15) }
 
 func checkC15(c *Ctx) error {
-	c.ruleText = "GenLines.tla: templates = up to MaxPre line-occupying items (text with newlines, blank lines, CR LF, a tag, a tag spread over three lines, double- and back-quoted strings containing newlines, a comment tag containing a newline, an output tag, a multi-line if block, a loop) followed by one failing tag of 16 kinds (unknown identifier, failing helper, type error, index out of range, unknown function, division by zero, silent and let / assignment variants, six syntax errors incl. an overflowing number) in 11 placements (top level, if / else / for body, second iteration only, function body called later, helper block, directly after a one-line / multi-line block / loop, inside a partial): MaxPre=1 quick (2.2k), 3 thorough. The expected line is declarative. Real code: Render fails, the error starts with `line N:` with the expected N, failing helpers stay wrapped, and for k in {1, 2, 7, 100} the template shifted by k newlines gives the identical error with every line number + k. distinct_nontrivial = distinct (fault, placement, preceding items)."
+	c.ruleText = "GenLines.tla: templates = up to MaxPre line-occupying items (text with newlines, blank lines, CR LF, a tag, a tag spread over three lines, double- and back-quoted strings containing newlines, a comment tag containing a newline, an output tag, a multi-line if block, a loop) followed by one failing tag of 24 kinds (unknown identifier, failing helper, type error, index out of range, unknown function, division by zero, silent and let / assignment variants, six syntax errors incl. an overflowing number, five run-time faults in a tag that spreads over several lines (the tag's first line must be named), three tags in which the input ends within an unterminated string (a line of the tag must be named)) in 14 placements (top level, if / else / for body, second iteration only, function body called later, helper block, directly after a one-line / multi-line block / loop, inside a partial, as the operand after a call / contentOf / partial that executed statements on other lines): MaxPre=1 quick (2.2k), 3 thorough. The expected line is declarative. Real code: Render fails, the error starts with `line N:` with the expected N, failing helpers stay wrapped, and for k in {1, 2, 7, 100} the template shifted by k newlines gives the identical error with every line number + k. distinct_nontrivial = distinct (fault, placement, preceding items)."
 	run := func(raw json.RawMessage) { c15Run(c, raw) }
 	if c.ReplayPath != "" {
 		return replayFile(c, run)
@@ -88,8 +89,12 @@ func c15Run(c *Ctx, raw json.RawMessage) {
 		return
 	}
 	got, _ := strconv.Atoi(o.Err[m[2]:m[3]])
-	if got != lc.Line {
-		c.Fail("wrong-line:"+sig, fmt.Sprintf("%q: error names line %d, the failing tag begins on line %d: %s", src, got, lc.Line, trunc(o.Err, 160)), cas)
+	if lc.Max < lc.Line {
+		lc.Max = lc.Line
+	}
+	// (when the input ends within an unterminated string of the tag: any line of the tag)
+	if got < lc.Line || got > lc.Max {
+		c.Fail("wrong-line:"+sig, fmt.Sprintf("%q: error names line %d, the failing tag begins on line %d (ends on %d): %s", src, got, lc.Line, lc.Max, trunc(o.Err, 160)), cas)
 		return
 	}
 	if lc.Wraps && !o.Wraps {
